@@ -30,6 +30,18 @@ def setup():
 
 
 def run_check(prop, tier, seed, replay):
+    # one check at a time: coq/Gen is regenerated from the tree under test and shared by all runs
+    import fcntl
+    os.makedirs(C.BUILD, exist_ok=True)
+    runlock = open(os.path.join(C.BUILD, ".runlock"), "w")
+    fcntl.flock(runlock, fcntl.LOCK_EX)
+    try:
+        return _run_check(prop, tier, seed, replay)
+    finally:
+        runlock.close()
+
+
+def _run_check(prop, tier, seed, replay):
     mod = importlib.import_module("props." + prop.lower())
     rep = C.Report(prop, tier, seed)
     rundir = C.make_rundir(prop)
